@@ -10,6 +10,8 @@
 (*                                                                          *)
 (*   reserve  item ok len cap   creation attempt reached its capacity check *)
 (*   create   item ok len cap   = reserve followed by push (unsplit call)   *)
+(*   create_err item len        creation failed before anything was created *)
+(*                              (the sound data's own conversion error)     *)
 (*   push     item              the new resource was handed to the audio side*)
 (*   mark     item              handle dropped / sound finished             *)
 (*   cb_begin                   a device callback starts                    *)
@@ -56,6 +58,8 @@ Check(m, e) ==
          ELSE IF e.len > m.n THEN "count_le_capacity"
          ELSE IF ~Obs(e.cap, m.n) THEN "capacity_reported"
          ELSE ""
+    \* a creation that failed for a reason of its own (the sound data could not be converted): nothing was created
+    [] e.a = "create_err" -> IF ~Obs(e.len, m.count) THEN "count_exact" ELSE ""
     [] e.a = "push" -> IF m.st[e.item] # "reserved" THEN "harness_push_unreserved"
                        ELSE IF ~Obs(e.len, m.count) THEN "count_exact" ELSE ""
     [] e.a = "mark" -> IF m.st[e.item] \notin Alive THEN "harness_mark_dead" ELSE ""
